@@ -1848,7 +1848,7 @@ def generate(known_root=lambda label: False):
             with open(path, "w") as fh:
                 fh.write(text)
     return {"W": W, "sigma": sigma, "sigmaP": sigmaP, "ok": ok, "bad": bad, "okP": okP, "badP": badP, "roots": roots,
-            "patched": patched, "tracesP": tracesP}
+            "patched": patched, "tracesP": tracesP, "bodies": bodies}
 
 
 if __name__ == "__main__":
